@@ -391,7 +391,8 @@ def main_check(prop, mod_name, tier, seed, replay=None):
 
     # generator-health floors declared by the module
     floor_msgs = []
-    if hasattr(mod, 'floors') and not errors:
+    if hasattr(mod, 'floors') and not errors and skipped == 0:
+        # (a run cut short by its time budget is inconclusive; its class distribution is not judged)
         floor_msgs = mod.floors(ctx, classes, evaluations, notes) or []
 
     rc = 0
@@ -462,6 +463,8 @@ def main_check(prop, mod_name, tier, seed, replay=None):
         os.makedirs(EVIDENCE_DIR, exist_ok=True)
         with open(os.path.join(EVIDENCE_DIR, '%s.json' % prop), 'w') as f:
             json.dump(ev, f, indent=1, default=repr, sort_keys=False)
+    if skipped:
+        lines.append('NOTE: time budget reached, %d generated cases were skipped (inconclusive for those, not a violation)' % skipped)
     for ln in lines:
         print(ln)
     print('%s tier=%s seed=%d evaluations=%d distinct_nontrivial=%d known_hit=%d new=%d wall=%.1fs rc=%d' % (
